@@ -400,6 +400,8 @@ Definition relay_tx (o : oracle) (r : rtx) : list call * bool :=
      else if negb (bytes_eqb (t_tx r) (tp_data (t_proof r))) then false           (* fix F18 *)
      else if negb (bytes_eqb (t_hash r) (H (t_tx r))) then false                   (* fix F18 *)
      else t_index r =? pf_index (tp_proof (t_proof r)))                            (* fix F18 *)
+     (* Go: int64(res.Index) != res.Proof.Proof.Index - the uint32 is WIDENED, the proof's int64 index is
+        never narrowed; here both are unbounded integers *)
   end.
 
 (* Client.TxSearch (fix F42): with prove = true every returned transaction goes through the
